@@ -121,6 +121,10 @@ def library_fingerprint():
                 continue
             else:
                 out[key] = canon(val)
+    # process-wide numeric settings an analysis may not leave changed (recorded like library state: a change is a new state,
+    # the histories decide whether any answer depends on it)
+    out["process.numpy_errstate"] = canon(dict(np.geterr()))
+    out["process.numpy_printoptions"] = canon({k: v for k, v in np.get_printoptions().items() if isinstance(v, (int, float, str, bool, type(None)))})
     return out
 
 
@@ -286,6 +290,12 @@ def alphabet():
         s = cs.TransientSolution(circuit=P["tcirc3"], tin=P["tin"], input=P["inputs"])
         return [canon(s.get_potential("2")), canon(s.get_voltage("C1")), canon(s.get_current("L1")), canon(s.get_power("R2")), canon(s.get_current("Vs"))]
     A["transient_solution_twin_values"] = tr3
+    # valid inputs on which an analysis may legitimately refuse or return infinities (whatever it does in isolation is the
+    # reference): a failure path must leave the process as it found it
+    A["ssm_zero_capacitance"] = lambda P: ssm_dump(nodal_state_space_model(P["netD"], c_values={"C": 0.0}, l_values=P["l_values"]))
+    A["ssm_zero_inductance"] = lambda P: ssm_dump(nodal_state_space_model(P["netD"], c_values=P["c_values"], l_values={"L": 0.0}))
+    A["short_circuit_current_ideal_port"] = lambda P: [canon(bpa.short_circuit_current(P["netK1"], "1", "0")), canon(bpa.short_circuit_current(P["netVa"], "2", "0"))]
+    A["impedance_across_ideal_source"] = lambda P: [canon(na.open_circuit_impedance(P["netK1"], "1", "0")), canon(na.element_impedance(P["netK2"], "y"))]
     A["circuit_ssm_twin_values"] = lambda P: [canon(getattr(cssm.state_space_model(P["tcirc3"], potential_nodes=P["nodes"], voltage_ids=P["ids"], current_ids=P["ids"]), k)) for k in "ABCD"]
     A["impedance_sweep"] = lambda P: [canon(cimp.open_circuit_impedance(P["tcirc"], "2", "0", w=P["w_arr"])), canon(cimp.element_impedance(P["tcirc"], "R1", w=P["w_arr"]))]
     A["impedance_sweep_default"] = lambda P: [canon(cimp.open_circuit_impedance(P["tcirc"], "2", "0")), canon(cimp.element_impedance(P["tcirc"], "R1")), canon(cimp.open_circuit_dc_resistance(P["tcirc"], "3", "0")),
@@ -348,7 +358,9 @@ def scribble(x, depth=0):
             scribble(v, depth + 1)
 
 
-SHARED_ARG_OPS = ["zero_v_keep_net2", "zero_i_keep_net2", "passive_keep_net2", "remove_short_keep", "remove_short_default", "zero_v_keep", "zero_v_default", "zero_i_keep", "remove_ideal_v_keep", "passive_keep", "passive_default",
+# operations whose isolated result may be an exception (the same exception is then expected in every history)
+MAY_RAISE = {"ssm_zero_capacitance", "ssm_zero_inductance", "short_circuit_current_ideal_port", "impedance_across_ideal_source"}
+SHARED_ARG_OPS = ["ssm_zero_capacitance", "ssm_zero_inductance", "short_circuit_current_ideal_port", "zero_v_keep_net2", "zero_i_keep_net2", "passive_keep_net2", "remove_short_keep", "remove_short_default", "zero_v_keep", "zero_v_default", "zero_i_keep", "remove_ideal_v_keep", "passive_keep", "passive_default",
                   "nodal_ssm_shared_dicts", "nodal_ssm_defaults", "transform_list", "transform_default", "transient_solution", "impedance_sweep_default",
                   "load_network", "to_complex_degree", "undictify_circuit", "undictify_all", "dictify_all", "serialize_roundtrip_json", "deserialize_circuit_text"]
 
@@ -474,7 +486,7 @@ def judge_history(ops, res):
         res["transitions"] += 1
         digests.add(digest)
         res["fps"].add(hash((name, r)) & 0xFFFFFFFFFFFF)
-        if iso[name][0][0] == "exc":
+        if iso[name][0][0] == "exc" and name not in MAY_RAISE:
             add_violation(res, "result_equals_isolation", {"history": [name]}, "a result", iso[name][0][1], "operation %s raises even in isolation" % name, kind="exception")
             return
         bump(res["hits"], "result_equals_isolation")
